@@ -54,12 +54,11 @@ def work(run, part, parts):
     for i in range(n):
         alg = ("sha1", "sha256", "sha512")[i % 3]
         bs = 128 if alg == "sha512" else 64
-        klen = rng.choice([1, 2, 9, 10, 16, 20, 32, 63, 64, bs - 1, bs, bs + 1 if bs + 1 <= 64 else 64, rng.randint(1, 64)])
-        klen = min(klen, 64)
+        klen = rng.choice([1, 2, 9, 10, 16, 20, 32, 63, 64, bs - 1, bs, bs + 1, bs + 7, 2 * bs, 200, rng.randint(1, 64)])      # (keys longer than the hash block are hashed first, RFC 2104)
         key = H.pw_bytes(rng, klen, "binary") if i % 4 else bytes([rng.randrange(256)]) * klen
         digits = rng.choice([6, 7, 8, 9, 10])
         period = rng.choice([1, 2, 7, 29, 30, 31, 60, 3600, rng.randint(1, 3600)])
-        kind = rng.choice(["int", "int", "float", "naive", "aware", "boundary", "boundary-1", "big", "zero", "huge"])
+        kind = rng.choice(["int", "int", "float", "naive", "aware", "boundary", "boundary-1", "big", "zero", "huge", "aware-far"])
         if kind == "big":
             t = rng.randrange(2 ** 31, 2 ** 40)
         elif kind == "zero":
@@ -84,6 +83,10 @@ def work(run, part, parts):
         elif kind == "aware":
             tz = rng.choice(tzs)
             arg = datetime.datetime.fromtimestamp(t, tz) + datetime.timedelta(microseconds=rng.randrange(10 ** 6))
+        elif kind == "aware-far":
+            # the last microsecond of a period, centuries ahead (sub-second parts never round up into the next period)
+            t = rng.randrange(2 ** 34, 200000000000) // period * period + period - 1
+            arg = datetime.datetime(1970, 1, 1, tzinfo=datetime.timezone.utc).astimezone(rng.choice(tzs)) + datetime.timedelta(seconds=t, microseconds=999999)
         w = dict(key=key, alg=alg, digits=digits, period=period, time=str(arg), time_kind=kind, epoch=t)
         rp = (f"import warnings; warnings.simplefilter('ignore')\nimport datetime\nfrom passlib.totp import TOTP\n"
               f"t=TOTP(key={key!r}, format='raw', alg={alg!r}, digits={digits}, period={period})\nprint(t.generate({arg!r}))")
@@ -142,7 +145,7 @@ def work(run, part, parts):
             for j, ch in enumerate(s):
                 out.append(ch.lower() if rng.random() < 0.5 else ch.upper())
                 if rng.random() < 0.2:
-                    out.append(rng.choice([" ", "-", "  ", " - "]))
+                    out.append(rng.choice([" ", "-", "  ", " - ", "\u00a0", "\u2009", "\u3000", "\t"]))       # any white space counts as a blank
             return "".join(out)
         spellings = [("base32", b32, "base32"), ("base32-lower", b32.lower(), "base32"), ("base32-decorated", deco(b32), "base32"),
                      ("base32-padded", base64.b32encode(key).decode(), "base32"), ("hex", hx, "hex"), ("hex-upper", hx.upper(), "hex"), ("hex-decorated", deco(hx), "hex"),
@@ -174,7 +177,7 @@ def body(run):
     run.require("generate", 300000)
     run.require("key_spellings", 20000)
     run.require("object_reuse", 10000)
-    for k in ("aware", "naive", "float", "boundary", "boundary-1", "big", "zero", "huge"):
+    for k in ("aware", "naive", "float", "boundary", "boundary-1", "big", "zero", "huge", "aware-far"):
         run.require(f"kind:{k}", 100)
     run.assumptions += ["reference = RFC 4226 dynamic truncation over stdlib hmac, validated on the RFC 4226/6238 vectors at the start of every shard",
                         "naive date-times are UTC (as documented); sub-second parts are discarded"]
